@@ -23,6 +23,7 @@ def pool():
         "Had": [[s2, s2], [s2, -s2]], "S": [[1, 0], [0, 1j]],
         "iPiZ": [[1j * np.pi, 0], [0, -1j * np.pi]],
         "PD": [[2, 1], [1, 2]],
+        "O": [[0, 0], [0, 0]],
     }
     ops = {k: np.array(v, dtype=complex) for k, v in mats.items()}
     return ops
@@ -221,7 +222,7 @@ def run_oracle(seed, budget_chains, report, count=None, only=None):
                 if count:
                     count((opn, name, cache))
                 check_flags(r, opn, report, [[name, cache], opn])
-    bin_names = ["I", "X", "Z", "iZ", "2I", "hI", "N", "W", "G", "H2", "S", "Y"]
+    bin_names = ["I", "X", "Z", "iZ", "2I", "hI", "N", "W", "G", "H2", "S", "Y", "O"]
     for opn, fn in sorted(B.items()):
         if only and opn not in only:
             continue
